@@ -78,7 +78,7 @@ def make_unitcell(cell):
         if cell["name"] == "fe2":
             symbols = ["Fe", "Fe1"]
     masses = None
-    if cell["masses"] != "std" or cell["ext"]:  # extended symbols need explicit masses
+    if cell["masses"] not in ("std", "set") or cell["ext"]:  # extended symbols need explicit masses
         base = {"Na": 22.5, "Cl": 35.125, "Ti": 47.75, "O": 16.25, "Si": 28.0625, "Fe": 55.875}
         masses = []
         for s in symbols:
@@ -106,6 +106,7 @@ def make_unitcell(cell):
                         scaled_positions=np.array(cr["pos"], dtype=float), masses=masses, magnetic_moments=mag)
 
 
+SET_MASS = {"Na": 21.25, "Cl": 36.5, "Ti": 45.125, "O": 17.75, "Si": 29.375, "Fe": 57.5}
 OWN_FACTOR = 20.0
 SYMPREC = {"default": 1e-5, "loose": 1e-2, "unset": 1e-5}
 NP_OBJ0 = dict(snf=False, tol="default", issym=True, dense=True, factor="default")
@@ -135,6 +136,10 @@ def new_phonopy(cfgobj, quiet=True, **override):
         ph = Phonopy(ucell, supercell_matrix=cr["smat"], primitive_matrix=(cr["pmat"] if isinstance(pmat, str) and pmat == "table" else pmat),
                      factor=factor, calculator=calc, use_SNF_supercell=bool(opt["snf"]), symprec=SYMPREC[opt["tol"]],
                      is_symmetry=bool(opt["issym"]), store_dense_svecs=bool(opt["dense"]))
+    if cfgobj["cell"]["masses"] == "set":
+        # custom masses assigned after construction, through the Phonopy.masses setter (primitive-cell masses; the
+        # setter carries them to the supercell and the unit cell, from where save() writes them)
+        ph.masses = [SET_MASS[x.rstrip("0123456789")] + (1.0 if x[-1].isdigit() else 0.0) for x in ph.primitive.symbols]
     return ph
 
 
